@@ -77,3 +77,17 @@ Qed.
 
 Lemma go_grow_ge f old needed : needed <= go_grow f old needed.
 Proof. unfold go_grow. apply Nat.le_max_l. Qed.
+
+(* ---- the classification regenerated from the sources ---- *)
+Lemma tree_md_of_classes : forall f, md_of_classes tree_classes f = tree_md f.
+Proof. intro f. destruct f; reflexivity. Qed.
+
+Definition slice_clauses : list string := ["Where"%string; "GroupBy"%string; "OrderBy"%string; "Returning"%string].
+
+Lemma isolation_from_classes cl :
+  (forall n, In n slice_clauses -> is_inplace (class_of cl n) = false) ->
+  forall grow hist, isolated (run_hist grow (md_of_classes cl) hist).
+Proof.
+  intros H grow hist. apply isolation_all. intro f.
+  destruct f; cbn [md_of_classes]; auto; apply H; cbn; auto.
+Qed.
